@@ -181,6 +181,40 @@ def run(chk, ctx):
             chk.ob('C18.V', 'protocol header decode', okk,
                    'consumed %s channel %s reads %r' %
                    (T.show(r.n), T.show(r.ch), desc), site=site)
+    # no refusal of a body frame depends on the payload bytes
+    size_ok = True
+    nref = 0
+    refused = []
+    for o in f.raises:
+        kn_ = o.state.kn
+        try:
+            is_body = kn_.decide(T.compare('eq', f.hfield(0), 3)) is True
+        except Exception:
+            is_body = False
+        if not is_body:
+            continue
+        nref += 1
+        for a in kn_.atoms:
+            if not isinstance(a, Sym):
+                continue
+            for ukind, lo, hi, t in F.data_uses([a], data):
+                if ukind == 'len':
+                    continue
+                if ukind == 'slice' and isinstance(hi, int) and hi <= hsize:
+                    continue
+                if ukind in ('slice', 'index') and \
+                        T.sub(lo, T.add(size_t, hsize)) == 0:
+                    continue  # the end octet
+                if ukind == 'slice' and isinstance(lo, int) and lo == 0 and \
+                        isinstance(hi, int) and hi <= 8:
+                    continue  # protocol-header look-ahead on the first bytes
+                refused.append('%s at %s depends on %s' % (
+                    o.exc.type_name, o.exc.site, T.show(t)[:60]))
+    del size_ok
+    chk.ob('C18.B', 'body refusals', not refused,
+           '%d refusal paths of body frames, none depends on payload bytes'
+           % nref if not refused else '; '.join(sorted(set(refused))[:2]),
+           site='pamqp/frame.py::unmarshal')
     for k in ('body', 'heartbeat', 'protocol'):
         if k not in seen:
             chk.ob('C18.B' if k == 'body' else 'C18.K' if k == 'heartbeat'
@@ -266,7 +300,7 @@ def run(chk, ctx):
            '7 abstract runs, no write to shared objects' if not sh else
            '; '.join(sorted(set(sh))[:3]))
     composed(chk, ctx, f, marshal_of)
-    chk.floor('C18.B', 7, 'body facts')
+    chk.floor('C18.B', 8, 'body facts')
     chk.floor('C18.V', 3, 'protocol header facts')
     chk.floor('C18.K', 2, 'heartbeat facts')
     chk.assume('a 131 072-byte body fits in memory')
